@@ -36,6 +36,8 @@ def run_one(m, tier, keep=False):
             if "nth" in m:
                 parts = s.split(m["old"])
                 k = m["nth"]
+                if k >= n:
+                    return m["name"], "BAD-MUTANT", "nth=%d but old text occurs %d times" % (k, n)
                 s = m["old"].join(parts[:k + 1]) + m["new"] + m["old"].join(parts[k + 1:])
             else:
                 s = s.replace(m["old"], m["new"])
